@@ -1,7 +1,7 @@
 (* C01 — Task group join: no child outlives its task group block.
    This file contains only statements closed by `exact` and their Print Assumptions.
    `reach s` = s is the state after some op list run from `init` (every program, every schedule). *)
-From AV Require Import Base Machine GroupInv GroupThms GroupThms4 GroupThms5 GroupThms7 GroupThms10.
+From AV Require Import Base Machine GroupInv GroupThms GroupThms4 GroupThms5 GroupThms7 GroupThms10 NativeAbsorbed.
 
 (* the step at which __aexit__ of group g returns/raises (ghost flag g_left flips): every task ever spawned into g
    is done and its task_done callback has run — for EVERY op sequence *)
@@ -99,3 +99,15 @@ Theorem C01_left_group_is_inactive : forall ops g, disciplined ops = true ->
   g_left (groups (final step init ops) g) = true -> group_active (final step init ops) g = false.
 Proof. exact left_group_is_inactive_ops. Qed.
 Print Assumptions C01_left_group_is_inactive.
+
+(* ---- known finding F24: "every task handle reports a final status" is refuted for a child that never ran ----
+   The join theorems above carry the explicit exception of a child natively cancelled (Task.cancel() by a third
+   party) before its first step.  For that child the clause is false of the faithful model and of the code
+   (corpus/C01/f24_*.json, replayed against the implementation on every run): TaskHandle._run_coro never starts, so
+   after the block has been left the handle's finished event is still unset and no outcome is recorded. *)
+Theorem C01_never_ran_handle_pending_refuted :
+  let s := final step init f24_ops in
+  g_left (groups s 1%nat) = true /\ k_ctl (tasks s 2%nat) = CDone /\
+  e_set (events s (k_hevent (tasks s 2%nat))) = false /\ k_hexc (tasks s 2%nat) = None /\ k_hret (tasks s 2%nat) = None.
+Proof. exact never_ran_handle_pending_witness. Qed.
+Print Assumptions C01_never_ran_handle_pending_refuted.
